@@ -36,18 +36,25 @@ def run(facts, res):
         du = du_of(u)
         cfg = cfg_of(u)
         diffs = [(bi, t) for bi, t in u.calls() if t.callee is not None and t.callee.name == R.name("diff_maker")]
-        adds = [(bi, t) for bi, t in u.calls() if t.callee is not None and t.callee.target() == "revisiontree::RevisionTree::add"]
-        news = [(bi, t) for bi, t in u.calls() if t.callee is not None and t.callee.target() == "revision::Revision::new_updated"]
+        from ..effects import effects_of
+        eff = effects_of(facts)
+        adds = [(s_.block, s_.term) for s_ in cg.sites[u.path] if s_.callee is not None and not s_.fanout and
+                ("revisiontree::RevisionTree", "revisions") in eff.site_effects(s_) and
+                not any(t_.public and t_.impl_adt == "melda::Melda" for t_ in s_.targets)]
+        news = []
+        for mb in list(cg.reach(u).values()):
+            if mb.in_repo() and (mb.path == u.path or (mb.impl_adt == "melda::Melda" and not mb.public)):
+                news += [(mb, bi, t) for bi, t in mb.calls() if t.callee is not None and t.callee.target() == "revision::Revision::new_updated"]
         res.floor("E1", "diff + new_updated + add sites in update_object", min(len(diffs), len(adds), len(news)), 1)
         for (db, dt) in diffs:
             tree = arg_term(u, dt, 2, 20)
             tv = {x[1] for x in walk(tree) if x[0] == "var"}
             for (ab, at) in adds:
-                par = arg_term(u, at, 2, 24)
-                recv = arg_term(u, at, 0, 20)
-                same_tree = bool(tv & {x[1] for x in walk(recv) if x[0] == "var"})
-                from_winner = contains_call(par, "get_winner") and bool(tv & {x[1] for x in walk(par) if x[0] == "var"})
-                nu_ok = any(contains_call(arg_term(u, nt, 1, 20), "get_winner") for _, nt in news)
+                argts = [arg_term(u, at, i_, 24) for i_ in range(len(at.args))]
+                same_tree = any(bool(tv & {x[1] for x in walk(a_) if x[0] == "var"}) and not contains_call(a_, "get_winner") for a_ in argts)
+                from_winner = any(contains_call(a_, "get_winner") and bool(tv & {x[1] for x in walk(a_) if x[0] == "var"}) for a_ in argts)
+                nu_ok = any(contains_call(arg_term(mb, nt, 1, 20), "get_winner") or any(x[0] == "param" for x in walk(arg_term(mb, nt, 1, 20)))
+                            for mb, _, nt in news)
                 between = [x for x, _ in adds if x != ab and cfg.reaches(db, x) and cfg.reaches(x, ab)]
                 ok = same_tree and from_winner and nu_ok and not between and not cfg.reaches(ab, db)
                 res.instance("E1", "update_object: diff computed on tree T, parent = T.get_winner() (%s/%s), new revision built on the same winner (%s), no insertion between diff and add (%s)" % (
